@@ -351,6 +351,9 @@ impl ModelG {
                     let f = self.file(*g);
                     f[*dst as usize % NREG] = None;
                 } else {
+                    // (malformed calls on the same object: outcome not decided here, compared across configurations)
+                    o.any("too_many_static_scalars_refused");
+                    o.any("dynamic_length_mismatch_refused");
                     self.set(*g, *dst, ed::multiscalar(&ks, &pts), &mut o);
                 }
             }
@@ -830,6 +833,21 @@ macro_rules! common_ops {
                     let again = pre.vartime_mixed_multiscalar_mul(sks.iter(), dks.iter(), ps.iter());
                     if Some(again.compress()) != r.map(|x| x.compress()) {
                         $o.f("second_use_differs", true);
+                    }
+                    // calls the trait documents as errors (more static scalars than static points, dynamic streams of
+                    // different lengths): what happens is not decided by a property, but it must be the same thing in
+                    // every configuration (logged, hence compared across builds and dispatcher answers)
+                    let mut too_many = sks.clone();
+                    while too_many.len() <= statics.len() {
+                        too_many.push(Scalar::ONE);
+                    }
+                    let r1 = crate::env::guarded(|| pre.vartime_mixed_multiscalar_mul(too_many.iter(), dks.iter(), ps.iter()).compress());
+                    $o.f("too_many_static_scalars_refused", r1.is_err());
+                    if !ps.is_empty() {
+                        let r2 = crate::env::guarded(|| pre.vartime_mixed_multiscalar_mul(sks.iter(), dks.iter(), ps[..ps.len() - 1].iter()).compress());
+                        $o.f("dynamic_length_mismatch_refused", r2.is_err());
+                    } else {
+                        $o.f("dynamic_length_mismatch_refused", true);
                     }
                 }
                 set_dispatch(0);
